@@ -164,3 +164,29 @@ example :
   decide
 
 end MV.Lifecycle
+
+namespace MV.Lifecycle
+
+/-- rows observed along a run of a detector model -/
+def rowsOf {σ ι : Type} (step : σ → ι → σ) (row : σ → ι → Obs) : σ → List ι → List Obs
+  | _, [] => []
+  | s, x :: xs => row (step s x) x :: rowsOf step row (step s x) xs
+
+/-- **Transfer lemma.**  If an invariant links the acceptor's memory to the model's state and
+every step of the model yields a row that violates no clause and re-establishes the
+invariant, then every trace of the model is accepted (= satisfies the contract), for all
+histories. -/
+theorem model_accepted {σ ι : Type} (c : Cfg) (step : σ → ι → σ) (row : σ → ι → Obs)
+    (Inv : Mon → σ → Prop)
+    (hstep : ∀ m s x, Inv m s → violated c m (row (step s x) x) = none ∧ Inv (advance m (row (step s x) x)) (step s x)) :
+    ∀ (xs : List ι) (m : Mon) (s : σ) (i : Nat), Inv m s → accept c m i (rowsOf step row s xs) = none := by
+  intro xs
+  induction xs with
+  | nil => intro m s i _; rfl
+  | cons x xs ih =>
+    intro m s i h
+    obtain ⟨h1, h2⟩ := hstep m s x h
+    simp only [rowsOf, accept, h1]
+    exact ih _ _ _ h2
+
+end MV.Lifecycle
